@@ -57,7 +57,7 @@ def main():
         res["demo_patched"] = rc
         res["checks"] = {}
         for p in props:
-            rc, out = sh(["/verif/check", p, "--tier", tier], cwd="/verif", env={"VERIF_REPO": wt, "VERIF_NO_EVIDENCE": "1"})
+            rc, out = sh(["/verif/check", p, "--tier", tier], cwd="/verif", env={"VERIF_REPO": wt, "VERIF_NO_EVIDENCE": "1", "VERIF_REPLAY_DIR": os.path.join(wt, ".verif_replays")})
             lines = [ln for ln in out.splitlines() if ln.startswith("VIOLATION") or "MACHINERY" in ln]
             res["checks"][p] = {"exit": rc, "violations": len([ln for ln in lines if ln.startswith("VIOLATION")]),
                                 "first": next((ln for ln in out.splitlines() if ln.startswith("  ")), "")[:300],
